@@ -15,7 +15,7 @@ func init() {
 	run.Register(&run.Def{
 		ID:          "C02",
 		Level:       "exploration",
-		Rule:        "bounded-exhaustive batches of the stored-field family: every assignment of a 9-entry cell menu (absent, indexed-not-stored, stored empty value, short value, array positions of length 1 and 3 incl. a >32-bit position, two stored instances with different type bytes, 70000-byte value (> one snappy block), 300 incompressible bytes) to (document, field in {a,b}) for N<=2 (reduced menus for N=3), _id first/last, duplicate ids; plus the C01 families. Per batch: full visit of every doc number 0..Count+1, a visitor stopping after the j-th callback for every j, DocID, DocNumbers for every one of the 256 subsets of 8 probe ids (present, absent below / between / equal-to-max / above max key, empty id), Count, Fields. Non-trivial = at least one stored non-_id value.",
+		Rule:        "bounded-exhaustive batches of the stored-field family: every assignment of a 9-entry cell menu (absent, indexed-not-stored, stored empty value, short value, array positions of length 1 and 3 incl. a >32-bit position, two stored instances with different type bytes, 70000-byte value (> one snappy block), 300 incompressible bytes) to (document, field in {a,b}) for N<=2 (reduced menus for N=3), _id first/last, duplicate ids; plus the C01 families. Per batch: full visit of every doc number 0..Count+1, a visitor stopping after the j-th callback for every j, DocID, DocNumbers for every one of the 256 subsets of 8 probe ids, each in ascending, descending and rotated order (present, absent below / between / equal-to-max / above max key, empty id), Count, Fields. Non-trivial = at least one stored non-_id value.",
 		Assumptions: batchAssumptions,
 		Bounds:      map[string]string{"quick": "N<=2 with 7-entry menu, N=3 with 4-entry menu, all 256 probe-id subsets", "thorough": "N<=2 full 9-entry menu, N=3 6-entry menu, all 256 probe-id subsets"},
 		New:         func() interface{} { return &enum.StoredCase{} },
@@ -85,16 +85,28 @@ func init() {
 					}
 				}
 				sort.Slice(want, func(x, y int) bool { return want[x] < want[y] })
-				bm, err := seg.DocNumbers(ids)
-				a.Eval(1)
-				if err != nil {
-					a.Violation("docnumbers-error", fmt.Sprintf("DocNumbers(%q): %v\n%s", ids, err, jsonStr(c)))
-					return
+				// the order of the ids in the list must not matter: ascending, descending, rotated
+				orders := [][]string{ids}
+				if len(ids) > 1 {
+					rev := make([]string, len(ids))
+					for i, id := range ids {
+						rev[len(ids)-1-i] = id
+					}
+					rot := append(append([]string{}, ids[len(ids)/2:]...), ids[:len(ids)/2]...)
+					orders = append(orders, rev, rot)
 				}
-				gotN := bm.ToArray()
-				if fmt.Sprint(gotN) != fmt.Sprint(want) && !(len(gotN) == 0 && len(want) == 0) {
-					a.Violation("docnumbers-mismatch", fmt.Sprintf("DocNumbers(%q) = %v, want %v\n%s", ids, gotN, want, jsonStr(c)))
-					return
+				for _, list := range orders {
+					bm, err := seg.DocNumbers(list)
+					a.Eval(1)
+					if err != nil {
+						a.Violation("docnumbers-error", fmt.Sprintf("DocNumbers(%q): %v\n%s", list, err, jsonStr(c)))
+						return
+					}
+					gotN := bm.ToArray()
+					if fmt.Sprint(gotN) != fmt.Sprint(want) && !(len(gotN) == 0 && len(want) == 0) {
+						a.Violation("docnumbers-mismatch", fmt.Sprintf("DocNumbers(%q) = %v, want %v\n%s", list, gotN, want, jsonStr(c)))
+						return
+					}
 				}
 			}
 			a.Outcome(fmt.Sprintf("ok/docs=%d", c.N))
